@@ -325,6 +325,9 @@ ERR_BOTH = [
     (("C08",), "civil::datetime::DateTime::checked_add_duration", ("self", "duration"), ()),
     (("C08", "C06"), "timestamp::Timestamp::checked_add_duration", ("self", "duration"), ()),
     (("C08",), "civil::time::Time::checked_add_duration", ("self", "duration"), ()),
+    # offsets: a delta beyond the distance between Offset::MIN and Offset::MAX (2 * 93_599 s) is out of range from every start
+    (("C02",), "tz::offset::Offset::checked_add_span", ("self", "span"), (("span", 187_198),)),
+    (("C02",), "tz::offset::Offset::checked_add_duration", ("self", "duration"), (("duration", 187_198),)),
 ]
 
 
